@@ -40,7 +40,8 @@ EXPLANATION = (
     'behaviour.'
     ' R8 (imported from C06-R3): decoding a primitive refuses only by ValidationError -- base64/strptime failures are converted.'
     ' R10 (condition drift): the 72 refusal sites of stone_validators / stone_serializers / stone_base raise under the canonical path conditions recorded in reference/conditions.json.'
-    ' RD (decision drift, stonelint.conddrift): the tests of the functions this property is anchored in (stonelint.ownership) are compared with reference/conditions.json; a relation, polarity or connective changed over the same operands, or an operand purely added or dropped, is a violation; re-spellings and new or removed tests are not claimed.')
+    ' RD (decision drift, stonelint.conddrift): the tests of the functions this property is anchored in (stonelint.ownership) are compared with reference/conditions.json; a relation, polarity or connective changed over the same operands, or an operand purely added or dropped, is a violation; re-spellings and new or removed tests are not claimed.'
+    " RE (expression drift, stonelint.exprdrift): the same functions' attribute names, variable reads, simple statements, calls and arithmetic/slice literals are compared with reference/expressions.json; a substituted attribute or variable, a dropped call or assignment, swapped arguments or a changed literal is a violation; any other edit is not claimed.")
 ASSUMPTIONS = [
     'the reading of bounds is the one the property quantifies with (bound-1, bound, bound+1: the '
     'bound itself is admissible); the language reference does not spell out inclusiveness',
@@ -558,6 +559,8 @@ def run(pm, ctx):
     from ..conddrift import run_decisions
     from ..ownership import OWN
     run_decisions(pm, ctx, 'C08-RD', OWN['C08'])
+    from .. import exprdrift
+    exprdrift.run(pm, ctx, 'C08-RE', OWN['C08'])
 
 
 def _anchoring(init_func, method):
